@@ -294,6 +294,29 @@ DeleteJoin(t, u) ==
             /\ cache' = [cache EXCEPT ![u] = Loaded(ForUpdate(u), TRUE)]
             /\ UNCHANGED <<disk, dirty, created, temp, envn, enc>>
        ELSE DmlR(t, DeleteJoinOp(ForUpdate(t), IF u = TempT THEN temp.cur ELSE ForUpdate(u)), FALSE, {}, {u} \ {TempT})
+\* UPDATE tx, ux SET tx.v = tx.v + 1, ux.v = CASE WHEN ux.id = k THEN 1 % 0 ELSE ux.v + 1 END FROM t tx JOIN u ux ON tx.id = ux.id
+\* one statement updating two tables: both change or - when the SET item of the second fails - neither does.
+\* (generated only where ids are unique in both tables, so that no row has two partners: the ambiguity rules are UpdateJoin's)
+UniqueIds(tb) == Has(tb, "id") /\ Has(tb, "v") /\
+                 \A i, j \in 1..Len(tb.rows) : (i # j /\ tb.rows[i][ColIdx(tb, "id")] # -1) => tb.rows[i][ColIdx(tb, "id")] # tb.rows[j][ColIdx(tb, "id")]
+UpdateTwo(t, u, k) ==
+  LET tT == ForUpdate(t)  uT == ForUpdate(u) IN
+  /\ t # u /\ t # TempT /\ u # TempT /\ ~tT.absent /\ ~uT.absent
+  /\ UniqueIds(tT) /\ UniqueIds(uT)
+  /\ LET ti == ColIdx(tT, "id")  tv == ColIdx(tT, "v")  ui == ColIdx(uT, "id")  uv == ColIdx(uT, "v")
+         mt == {i \in 1..Len(tT.rows) : tT.rows[i][ti] # -1 /\ \E j \in 1..Len(uT.rows) : uT.rows[j][ui] = tT.rows[i][ti]}
+         mu == {j \in 1..Len(uT.rows) : uT.rows[j][ui] # -1 /\ \E i \in 1..Len(tT.rows) : tT.rows[i][ti] = uT.rows[j][ui]}
+         fails == \E j \in mu : uT.rows[j][ui] = k
+         t2 == T(tT.cols, [i \in 1..Len(tT.rows) |-> IF i \in mt THEN [tT.rows[i] EXCEPT ![tv] = Plus(@, 1)] ELSE tT.rows[i]])
+         u2 == T(uT.cols, [j \in 1..Len(uT.rows) |-> IF j \in mu THEN [uT.rows[j] EXCEPT ![uv] = Plus(@, 1)] ELSE uT.rows[j]])
+     IN IF fails
+          THEN /\ out' = Err("IntegerDividedByZero") /\ ended' = Script
+               /\ cache' = [cache EXCEPT ![t] = Loaded(tT, TRUE), ![u] = Loaded(uT, TRUE)]
+               /\ UNCHANGED <<disk, dirty, created, temp, envn, enc>>
+          ELSE /\ out' = Val(<<ToString(Cardinality(mt))>>)
+               /\ cache' = [cache EXCEPT ![t] = Loaded(t2, TRUE), ![u] = Loaded(u2, TRUE)]
+               /\ dirty' = IF mt = {} THEN dirty ELSE dirty \cup {t, u}
+               /\ UNCHANGED <<disk, created, temp, ended, envn, enc>>
 AddFirst(t)      == Dml(t, AddFirstOp(ForUpdate(t)), TRUE)
 AddFail(t, k)    == Dml(t, AddFailOp(ForUpdate(t), k), TRUE)
 AddCol(t)        == Dml(t, AddColOp(ForUpdate(t)), TRUE)
@@ -423,6 +446,7 @@ Do(a) ==
        [] a.act = "insertbad2" -> InsertBad2(a.t, a.k)
        [] a.act = "updatejoin" -> UpdateJoin(a.t, a.u)
        [] a.act = "deletejoin" -> DeleteJoin(a.t, a.u)
+       [] a.act = "updatetwo" -> UpdateTwo(a.t, a.u, a.k)
        [] a.act = "addfirst" -> AddFirst(a.t)
        [] a.act = "addfail"  -> AddFail(a.t, a.k)
        [] a.act = "updateswap" -> UpdateSwap(a.t, a.k)
@@ -461,6 +485,7 @@ Actions ==
   \cup {A("selectpath", t, 0, x) : t \in AllFiles, x \in 1..4}          \* x: the spelling
   \cup {A("insertpath", t, k, x) : t \in AllFiles, k \in Keys, x \in 1..4}
   \cup {A3("createas", u, k) : u \in Tables \ {NewFile}, k \in 0..3}
+  \cup {[act |-> "updatetwo", t |-> t, u |-> u, k |-> k, x |-> 0] : t \in AllFiles, u \in AllFiles, k \in Keys \cup {7}}
   \cup {A("callnoop", "", 0, 0)}
   \cup {A("callins", t, k, 0) : t \in Tables \ {NewFile}, k \in Keys}
   \cup {A(x, "", 0, 0) : x \in {"create", "commit", "rollback"}}
